@@ -61,7 +61,7 @@ TraceCfg ==
 TraceCall ==
    /\ IsKind("call")
    /\ LET j == Line
-          e == EventT(j)
+          e == [EventT(j) EXCEPT !.ab = st.ab]
           inprog == "d" \in DOMAIN j
           bound == ~inprog \/ \A i \in DOMAIN j.s : j.s[i] = 0 \/ env[j.s[i]] = e.a[i]     \* data-flow binding
           v == JudgeAll(Prop, prev, e)
